@@ -39,22 +39,25 @@ type Outcome struct {
 
 // Ctx carries the run configuration of one check invocation.
 type Ctx struct {
-	Prop     string
-	Tier     string // quick | thorough
-	Seed     uint64
-	Start    time.Time
-	Verif    string // /verif root
-	mu       sync.Mutex
-	evals    int
-	sigs     map[string]bool
-	incon    map[string]int
-	cov      map[string]int
-	samples  []any
-	viols    []violation
-	known    []Known
-	knownHit map[string]int
-	notes    []string
-	extra    map[string]any
+	Prop      string
+	Tier      string // quick | thorough
+	Seed      uint64
+	Start     time.Time
+	Verif     string // /verif root
+	Replay    string // replay file (re-run exactly that case)
+	mu        sync.Mutex
+	evals     int
+	sigs      map[string]bool
+	incon     map[string]int
+	cov       map[string]int
+	samples   []any
+	viols     []violation
+	known     []Known
+	knownHit  map[string]int
+	notes     []string
+	extra     map[string]any
+	reduced   int
+	knownSeen [][2]string
 }
 
 type violation struct {
@@ -82,6 +85,17 @@ func NewCtx(prop, tier string) *Ctx {
 
 func (c *Ctx) Quick() bool { return c.Tier != "thorough" }
 
+// TakeReduceSlot returns true for the first few violations of a run: those get their witness reduced.
+func (c *Ctx) TakeReduceSlot() bool {
+	c.mu.Lock()
+	defer c.mu.Unlock()
+	if c.reduced >= 6 {
+		return false
+	}
+	c.reduced++
+	return true
+}
+
 // N picks a count by tier.
 func (c *Ctx) N(quick, thorough int) int {
 	if c.Quick() {
@@ -93,6 +107,13 @@ func (c *Ctx) N(quick, thorough int) int {
 func (c *Ctx) Note(format string, a ...any) {
 	c.mu.Lock()
 	c.notes = append(c.notes, fmt.Sprintf(format, a...))
+	c.mu.Unlock()
+}
+
+// Known records that a listed known finding was reproduced by its committed witness on this run.
+func (c *Ctx) Known(id, what string) {
+	c.mu.Lock()
+	c.knownSeen = append(c.knownSeen, [2]string{id, what})
 	c.mu.Unlock()
 }
 func (c *Ctx) SetExtra(k string, v any) { c.mu.Lock(); c.extra[k] = v; c.mu.Unlock() }
@@ -232,16 +253,17 @@ func (c *Ctx) Finish(rule string, assumptions []string) int {
 		samples = []any{"(no held sample recorded)"}
 	}
 	cov := map[string]any{
-		"evaluations":         c.evals,
-		"distinct_nontrivial": len(c.sigs),
-		"rule":                rule,
-		"samples":             samples,
-		"verdict":             verdict,
-		"inconclusive":        c.incon,
-		"inconclusive_total":  inconTotal,
-		"counters":            c.cov,
-		"known_findings_hit":  c.knownHit,
-		"notes":               c.notes,
+		"evaluations":               c.evals,
+		"distinct_nontrivial":       len(c.sigs),
+		"rule":                      rule,
+		"samples":                   samples,
+		"verdict":                   verdict,
+		"inconclusive":              c.incon,
+		"inconclusive_total":        inconTotal,
+		"counters":                  c.cov,
+		"known_findings_hit":        c.knownHit,
+		"known_findings_reproduced": c.knownSeen,
+		"notes":                     c.notes,
 	}
 	for k, v := range c.extra {
 		cov[k] = v
@@ -255,6 +277,10 @@ func (c *Ctx) Finish(rule string, assumptions []string) int {
 	if err := os.WriteFile(filepath.Join(c.Verif, "evidence", c.Prop+".json"), b, 0o644); err != nil {
 		fmt.Println("cannot write evidence:", err)
 		return 3
+	}
+	// known findings reproduced by their witnesses
+	for _, k := range c.knownSeen {
+		fmt.Printf("KNOWN-FINDING: property=%s finding=%s %s\n", c.Prop, k[0], k[1])
 	}
 	// known findings
 	ids := make([]string, 0, len(c.knownHit))
